@@ -685,3 +685,75 @@ Qed.
 
 Lemma nat_eqb_spec : forall a b : nat, Nat.eqb a b = true <-> a = b.
 Proof. intros a b. apply Nat.eqb_eq. Qed.
+
+(* ================================================================================================ *)
+(* the repair proposed for F-C12-1: order the group keys by their first record                       *)
+(* ================================================================================================ *)
+(* position of the first occurrence of k in l (length l when absent) *)
+Fixpoint first_pos (k : nat) (l : list nat) : nat :=
+  match l with
+  | [] => 0
+  | h :: t => if Nat.eqb h k then 0 else S (first_pos k t)
+  end.
+
+Lemma sorted_perm_unique : forall (A : Type) (R : A -> A -> Prop),
+  (forall x y, R x y -> R y x -> False) ->
+  forall l1 l2, StronglySorted R l1 -> StronglySorted R l2 -> Permutation l1 l2 -> l1 = l2.
+Proof.
+  intros A R Hasym. induction l1 as [|a t1 IH]; intros l2 H1 H2 Hp.
+  - apply Permutation_nil in Hp. subst. reflexivity.
+  - destruct l2 as [|b t2]; [apply Permutation_sym, Permutation_nil in Hp; discriminate|].
+    inversion H1 as [|? ? Hs1 Hall1]; subst. inversion H2 as [|? ? Hs2 Hall2]; subst.
+    rewrite Forall_forall in Hall1, Hall2.
+    assert (Hab : a = b).
+    { assert (Ha : In a (b :: t2)) by (apply (Permutation_in _ Hp); left; reflexivity).
+      assert (Hb : In b (a :: t1)) by (apply (Permutation_in _ (Permutation_sym Hp)); left; reflexivity).
+      destruct Ha as [Ha|Ha]; [auto|]. destruct Hb as [Hb|Hb]; [auto|].
+      exfalso. apply (Hasym a b); [apply Hall1; exact Hb|apply Hall2; exact Ha]. }
+    subst b. f_equal. apply IH; try assumption. eapply Permutation_cons_inv; eauto.
+Qed.
+
+Lemma dedup_from_sorted_by_first : forall l seen,
+  StronglySorted (fun x y => first_pos x l < first_pos y l) (dedup_from Nat.eqb seen l).
+Proof.
+  induction l as [|h t IH]; intros seen; cbn [dedup_from]; [constructor|].
+  assert (Hshift : forall seen', (forall x, In x (dedup_from Nat.eqb seen' t) -> x <> h) ->
+    StronglySorted (fun x y => first_pos x (h :: t) < first_pos y (h :: t)) (dedup_from Nat.eqb seen' t)).
+  { intros seen' Hneq. specialize (IH seen').
+    induction IH as [|a l' Hs IHs Hall]; [constructor|].
+    constructor.
+    - apply IHs. intros x Hx. apply Hneq. right. exact Hx.
+    - rewrite Forall_forall in *. intros y Hy. cbn [first_pos].
+      replace (Nat.eqb h a) with false by (symmetry; apply Nat.eqb_neq; intros E; apply (Hneq a (or_introl eq_refl)); auto).
+      replace (Nat.eqb h y) with false by (symmetry; apply Nat.eqb_neq; intros E; apply (Hneq y (or_intror Hy)); auto).
+      specialize (Hall y Hy). lia. }
+  destruct (mem Nat.eqb h seen) eqn:E.
+  - apply Hshift. intros x Hx Hxh. subst x.
+    apply (dedup_from_In Nat.eqb nat_eqb_spec) in Hx. destruct Hx as [_ Hx]. apply Hx.
+    apply (mem_In Nat.eqb nat_eqb_spec). exact E.
+  - constructor.
+    + apply Hshift. intros x Hx Hxh. subst x.
+      apply (dedup_from_In Nat.eqb nat_eqb_spec) in Hx. destruct Hx as [_ Hx]. apply Hx. left. reflexivity.
+    + apply Forall_forall. intros y Hy. cbn [first_pos]. rewrite Nat.eqb_refl.
+      assert (y <> h).
+      { intros ->. apply (dedup_from_In Nat.eqb nat_eqb_spec) in Hy. destruct Hy as [_ Hy]. apply Hy. left. reflexivity. }
+      replace (Nat.eqb h y) with false by (symmetry; apply Nat.eqb_neq; auto). lia.
+Qed.
+
+(* Whatever order the keys arrived in: once they are sorted by the index of their first record
+   (sort.Slice by firstRecord in the proposed patch) the group list is the one-goroutine list. *)
+Lemma group_keys_sorted_eq_seq : forall (key : nat -> nat) len n arrivals l, 1 <= n ->
+  interleaving (all_worker_keys Nat.eqb key len n) arrivals ->
+  Permutation l (group_keys_of Nat.eqb arrivals) ->
+  StronglySorted (fun x y => first_pos x (map key (seq 0 len)) < first_pos y (map key (seq 0 len))) l ->
+  l = group_keys_seq Nat.eqb key len.
+Proof.
+  intros key len n arrivals l Hn Hil Hp Hs.
+  apply (sorted_perm_unique _ (fun x y => first_pos x (map key (seq 0 len)) < first_pos y (map key (seq 0 len)))).
+  - intros x y H1 H2. lia.
+  - exact Hs.
+  - unfold group_keys_seq, dedup. apply dedup_from_sorted_by_first.
+  - etransitivity; [exact Hp|].
+    apply NoDup_Permutation; try (apply dedup_NoDup; apply nat_eqb_spec).
+    intros k. apply (arrival_keys_set Nat.eqb nat_eqb_spec key len n arrivals k Hn Hil).
+Qed.
